@@ -49,6 +49,11 @@ BuiltinsKeepTheirVisit ==
   \A c \in BuiltinCls, v \in LibVisitors :
      DispatchOut(reg, c, v) # "builtin" => Replaced(reg, c, v)
 
+\* a formatter plug-in can replace what a message says only by defining the public format method
+\* itself: its private helpers stay its own (C03: the rendered message names the path)
+PrivateFormatterHelpersStayPrivate ==
+  RenderOut(reg) # "default" => "format_type_error" \in reg.own["Formatter"]
+
 \* the history explains the state
 StateIsRunOfHistory == reg = Run(InitReg, hist)
 
